@@ -624,7 +624,14 @@ def case_apind(ctx, inp):
     try:
         exp = x[np_idx]
     except IndexError:
-        ctx.note("numpy-rejects")
+        # NumPy rejects the index (out of bounds, too many indices, boolean index of the wrong length): dask must not
+        # silently return something
+        try:
+            got = np.asarray(d[da_idx].compute(scheduler="sync"))
+        except Exception:
+            ctx.branch("nd-rejected-like-numpy")
+            return
+        ctx.fail("dask accepts an index that NumPy rejects with IndexError", observed=[list(got.shape), got.tolist()])
         return
     kinds = [k for k, _ in inp["index"]]
 
@@ -1217,6 +1224,19 @@ def generate(ctx):
     for _ in range(ctx.n(140, 2500)):
         shape, chunks = _rand_nd(rng)
         yield "apind", {"shape": shape, "chunks": chunks, "index": _rand_nd_index(rng, shape)}
+    # (4a') boolean masks (NumPy and dask) whose length differs from the axis, incl. length-one axes / length-one masks
+    for _ in range(ctx.n(40, 600)):
+        shape, chunks = _rand_nd(rng, zero=0.0)
+        if rng.random() < 0.5:
+            shape[0] = 1
+            chunks[0] = [1]
+        n = shape[0]
+        m = rng.choice([1, n + 1, n + 2, max(1, n - 1)]) if rng.random() < 0.85 else n
+        mask = [rng.random() < 0.7 for _ in range(m)]
+        spec = [(rng.choice(["bool", "dabool", "dabool"]), mask)]
+        if len(shape) > 1 and rng.random() < 0.4:
+            spec.append(("slice", [None, None, rng.choice([None, -1])]))
+        yield "apind", {"shape": shape, "chunks": chunks, "index": spec}
     # (4b) np.newaxis next to an array index (list / NumPy / dask, int / bool): at least one None and one array index
     made = 0
     while made < ctx.n(110, 1800):
